@@ -109,10 +109,16 @@ Fixpoint put (e : expr) (p : path) (x : expr) : option expr :=
 Definition put_o (root : expr) (p : path) (x : expr) : outcome expr :=
   match put root p x with Some r => Done r | None => Raise EBadCase end.
 
+(* the raw list of the expression at p becomes l *)
+Definition set_body_at (root : expr) (p : path) (l : list expr) : option expr :=
+  match get root p with
+  | Some h => put root p (set_body h l)
+  | None => None
+  end.
 (* replace the sub-list [i, i+k) of the raw list of the expression at p by new *)
 Definition splice_at (root : expr) (p : path) (i k : nat) (new : list expr) : option expr :=
   match get root p with
-  | Some h => put root p (set_body h (splice i k new (body_of h)))
+  | Some h => set_body_at root p (splice i k new (body_of h))
   | None => None
   end.
 
